@@ -596,6 +596,28 @@ def corr_nested(ctx, drv):
             _wit(ctx, 'nested', f'inner brush of a two-level inclusion is not at the composed placement: {case}', {'kind': 'nested', 'case': case})
 
 
+def corr_from_angle(ctx, drv):
+    """Matrix.from_angle against the coded polynomial in the six cos/sin values (exact on the model side)."""
+    import math
+    im = impl()
+    Matrix, Angle = im['Matrix'], im['Angle']
+    reqs, meta = [], []
+    for _ in range(ctx.budget(300, 3000)):
+        ang, kind = G.rand_angle(ctx.rng)
+        a = Angle(*ang)
+        rp, ry, rr = math.radians(a.pitch), math.radians(a.yaw), math.radians(a.roll)
+        t = [math.cos(rp), math.sin(rp), math.cos(ry), math.sin(ry), math.cos(rr), math.sin(rr)]
+        reqs.append({'op': 'fromtrig', 't': [G.rat(x) for x in t]})
+        meta.append((ang, G.mat_entries(Matrix.from_angle(a))))
+        ctx.case({'from_angle': ang}, nontrivial=kind != 'identity', sample_every=1009)
+    ctx.count('from_angle cases', len(reqs))
+    for (ang, got), m in zip(meta, drv.batch(reqs)):
+        ctx.traces_vs_impl += 1
+        want = [G.unrat(x) for x in m.get('R', [])]
+        if len(want) != 9 or any(abs(got[j] - float(want[j])) > 1e-15 for j in range(9)):
+            ctx.disagree({'from_angle': ang}, got, [float(x) for x in want], 'Matrix.from_angle vs fromTrig')
+
+
 # --- collapse_all
 
 class _TooMany(Exception):
@@ -754,6 +776,7 @@ def correspond(ctx, drivers):
     corr_cells(ctx, drv)
     corr_collapse_all(ctx, drv)
     corr_nested(ctx, drv)
+    corr_from_angle(ctx, drv)
     # histories
     n_hist = ctx.budget(250, 2500)
     reqs, meta = [], []
